@@ -1,7 +1,7 @@
 (* C19 -- operation mode, export limit and DoD setters round-trip with their getters (encoder level: the full-time
    eco-mode groups; the setter / getter sequences are checked on the real classes against the simulated inverter). *)
 From Coq Require Import ZArith List Bool String.
-From GW Require Import Prelude PyStr PyFloat Sensors SensorProofs CodecProofs.
+From GW Require Import Prelude PyStr PyFloat Sensors SensorProofs CodecProofs Settings TablesGen SettingsGen SettingsProofs Modes ModesGen ModesProofs.
 Import ListNotations.
 Open Scope Z_scope.
 
@@ -21,7 +21,43 @@ Proof. exact eco_v1_roundtrip. Qed.
 Theorem C19_schedule_type_selected : forall cur is745, set_schedule_type_eco cur is745 = 0 \/ set_schedule_type_eco cur is745 = 6.
 Proof. exact schedule_type_after_set. Qed.
 
+(* ---- end to end on the register-file model (Model/Modes.v over Model/Settings.v).  The step list of every mode, the registers of
+   _set_offline / _clear_battery_mode_param and the values of OperationMode are GENERATED from the current source (tools/om2v.py); the
+   settings are the generated tables of an ET with eco-mode v2.  For EVERY prior content of the registers: *)
+Theorem C19_simple_modes_roundtrip : forall m r is745 prev p soc, simple m = true ->
+  exists r', run_msteps (ctx is745 prev p soc) (et_set_mode m) r = Ok r' /\ get_operation_mode om_values et_settings r' = Ok (Some m).
+Proof. exact simple_modes_roundtrip. Qed.
+
+Theorem C19_eco_charge_roundtrip : forall r is745 prev p soc, 1 <= p <= 100 -> 0 <= soc <= 100 ->
+  exists r' x, run_msteps (ctx is745 prev p soc) (et_set_mode MEcoCharge) r = Ok r' /\
+               get_operation_mode om_values et_settings r' = Ok (Some MEcoCharge) /\
+               read_setting r' eco_sensor = Ok (VSched x) /\ sched_decode_power (sc_type x) (sc_power x) = - p /\ sc_soc x = soc.
+Proof. exact eco_charge_roundtrip_rf. Qed.
+
+Theorem C19_eco_discharge_roundtrip : forall r is745 prev p soc, 1 <= p <= 100 -> 0 <= soc <= 100 ->
+  exists r' x, run_msteps (ctx is745 prev p soc) (et_set_mode MEcoDischarge) r = Ok r' /\
+               get_operation_mode om_values et_settings r' = Ok (Some MEcoDischarge) /\
+               read_setting r' eco_sensor = Ok (VSched x) /\ sched_decode_power (sc_type x) (sc_power x) = p /\ sc_soc x = 100.
+Proof. exact eco_discharge_roundtrip_rf. Qed.
+
+(* ECO: the answer is decided by the first eco-mode group that was in the registers before (the steps do not touch it): ECO unless that
+   group is a full-time charge / discharge group -- KNOWN FINDING, shown on the model by C19_eco_refuted *)
+Theorem C19_eco_partial : forall r is745 prev p soc,
+  exists r', run_msteps (ctx is745 prev p soc) (et_set_mode MEco) r = Ok r' /\ get_operation_mode om_values et_settings r' = eco_classify r.
+Proof. exact eco_mode_roundtrip_partial. Qed.
+
+Theorem C19_eco_refuted :
+  match run_msteps (ctx false 0 100 100) (et_set_mode MEco) r_full_time_charge with
+  | Ok r' => get_operation_mode om_values et_settings r'
+  | Exc e => Exc e end = Ok (Some MEcoCharge).
+Proof. exact eco_refuted. Qed.
+
 Print Assumptions C19_charge_group.
 Print Assumptions C19_discharge_group.
 Print Assumptions C19_v1_groups.
 Print Assumptions C19_schedule_type_selected.
+Print Assumptions C19_simple_modes_roundtrip.
+Print Assumptions C19_eco_charge_roundtrip.
+Print Assumptions C19_eco_discharge_roundtrip.
+Print Assumptions C19_eco_partial.
+Print Assumptions C19_eco_refuted.
